@@ -17,11 +17,12 @@ RULE = ("Hypothesis: factory in {normal, uniform, laplace, zero}, means of eithe
         "autocorrelation z; zero() == 0; the SAME callable object gives the same array after re-seeding numpy's global "
         "generator with the same seed (whatever was drawn in between) and different arrays for consecutive calls; "
         "functions.null(anything) == 0. Default arguments are exercised too. Non-trivial = n = 20,000 with var != 1 (normal), "
-        "(lo, hi) != (0, 1) (uniform), scale != 1 (laplace). Distinct = (factory, parameters, n, seed). Also: parameters as numpy float32 / int8..int64 / 0-d arrays (integer bounds whose difference overflows their type), variances / widths / scales from 2^-40 to 1e6, results overwritten before the next draw.")
+        "(lo, hi) != (0, 1) (uniform), scale != 1 (laplace). Distinct = (factory, parameters, n, seed). Also: parameters as numpy float32 / int32 / int64 / 0-d arrays, variances / widths / scales from 2^-40 to 1e6, n up to 196,608 (multiples of 2^16), results overwritten before the next draw, deep / shallow copies and pickles of the callable.")
 ASSUMPTIONS = [
     "false-alarm probability per statistic < 1e-12 for any correct sampler and any random stream (z<=8, KS<=3.8)",
     "detectable effect at n=20,000: relative variance error >= ~9% (normal), mean shift >= 0.06 sigma, wrong family by KS",
     "'draws come from numpy's global generator' is observed through reproducibility after np.random.seed",
+    "sizes / counts / integer bounds are generated as Python ints or signed numpy integers of 32 bits or more (DESIGN.md 8.7b)",
 ]
 N_LAW = 20000
 
